@@ -54,7 +54,7 @@ def check_relations(cases, res, stratum, keep_array=False):
             ok, why = relation_ok(r, code, v, nf)
             if not ok:
                 one = dict(c)
-                if keep_array or c['carrier'] in ('arr_obj', 'arr2d_T', 'arr_obj2d', 'arr_obj_f32'): one['index_in_original'] = j          # (the neighbours are part of the failing input)
+                if keep_array or c['carrier'] in ('arr_obj', 'arr2d_T', 'arr_obj2d', 'arr_obj_f32', 'list_int_then_dec'): one['index_in_original'] = j          # (the neighbours are part of the failing input)
                 else: one['vals'] = [c['vals'][j]]
                 res.fail(one, 'C05: rounding contract violated (%s)' % why, expected='relation holds', got={'code': code, 'v': str(v)})
                 break
@@ -136,6 +136,8 @@ def shard(shard, nshards, rng, tier, extra):
         vals = [S.as_number(v) for v in S.boundary_values(rng, s, nw, nf, rng.choice([1, 1, 2, 5]))]
         cases.append({'s': s, 'nw': nw, 'nf': nf, 'r': rng.choice(RMODES), 'o': rng.choice(OMODES), 'carrier': rng.choice(S.carriers_for(vals, rng)),
                       'route': rng.choice(S.ROUTES), 'vals': vals, 'setmode': rng.choice(['slice', 'each', 'view'])})
+        if len(vals) >= 2 and float(vals[0]) == int(float(vals[0])) and rng.random() < 0.25:
+            cases[-1]['carrier'] = 'list_int_then_dec'; cases[-1]['setmode'] = 'slice'
     check_relations(cases, res, 'B:random-formats')
     # ---- (T) n_frac < 0: non-zero floats whose scaled value underflows to zero, in arrays together with exact zeros (of either sign) and
     # representable values, in any order: a repair applied to the vanishing element must not touch its neighbours
